@@ -260,6 +260,18 @@ def gen_edge(g):
     k = rnd.random()
     if k < 0.5:
         s = rnd.choice(EDGE) + rnd.choice(OFFS)
+    elif k < 0.58:
+        # enormous counts and numbers (arithmetic on them must overflow quietly, whatever numeric type is used inside):
+        # relative phrases in several languages, decimals with long tails, absolute strings with an over-long field
+        n = rnd.choice(["9", "1", "10", "12345678901234567890"]) * rnd.choice([1, 2, 3]) + "0" * rnd.choice([0, 15, 27, 28, 29, 30, 45, 80])
+        if rnd.random() < 0.3:
+            n += rnd.choice([".5", ",5", ".%s" % ("3" * rnd.choice([20, 40])), ".0"])
+        unit = rnd.choice(["year", "years", "decade", "decades", "month", "months", "week", "weeks", "day", "days", "hour", "hours",
+                           "minute", "minutes", "second", "seconds"])
+        s = rnd.choice(["%s %s ago" % (n, unit), "in %s %s" % (n, unit), "%s %s" % (n, unit), "hace %s años" % n, "il y a %s ans" % n,
+                        "vor %s Jahren" % n, "%s лет назад" % n, "%s年前" % n, "%s %s ago at 10:30" % (n, unit),
+                        "12 May %s" % n, "%s May 2015" % n, "2015-05-%s" % n, "10:%s" % n, "%s:30" % n, "12 May 2015 10:30:15.%s" % n,
+                        "1 year %s %s ago" % (n, unit)])
     elif k < 0.8:
         s = rnd.choice(REL)
     else:
